@@ -475,8 +475,11 @@ func invokedHelpers(b *Backend, l *Line) []string {
 	return out
 }
 
-func c16Helpers(w *World, b *Backend, r *Result) {
+func c16Helpers(w *World, b *Backend, r *Result, rules ...string) {
 	rule := "R-C16-helpers"
+	if len(rules) > 0 {
+		rule = rules[0]
+	}
 	flags := helperFlags(b)
 	// flags set by ProgramEnd itself before the helper's own test (dependency closure)
 	pe := b.X.Methods["ProgramEnd"]
@@ -502,6 +505,30 @@ func c16Helpers(w *World, b *Backend, r *Result) {
 							dep[m[1]] = map[string]bool{}
 						}
 						dep[m[1]][name] = true
+					}
+				}
+				// a helper requested from inside another helper's block must be requested before its
+				// own block is reached: a test of the flag that can be followed by this store has
+				// already decided not to emit the helper
+				if k, isK := st.Val.(*ssa.Const); isK && k.Value != nil && isBool(k.Type()) {
+					for _, tb := range pe.Fn.Blocks {
+						cnd, _ := condOf(tb)
+						u, ok := cnd.(*ssa.UnOp)
+						if !ok {
+							continue
+						}
+						f2, ok := u.X.(*ssa.FieldAddr)
+						if !ok || !x.isConvPtr(f2.X.Type()) || structFieldName(f2.X.Type(), f2.Field) != name {
+							continue
+						}
+						key := "helpers:" + b.Role + ":order:" + name
+						// setting the flag again on the very side on which it was found set changes nothing
+						redundant := len(tb.Succs) == 2 && (tb.Succs[0] == blk || tb.Succs[0].Dominates(blk)) && len(tb.Succs[0].Preds) == 1
+						if tb != blk && !redundant && reachableFromWithout(tb, nil, blk) {
+							r.Bad(rule, key, w.Pos(st.Pos()), fmt.Sprintf("ProgramEnd sets %s after the block that tests it has been passed: the routine is requested too late and missing from the script although it is called", name))
+						} else {
+							r.Ok(rule, key, w.Pos(st.Pos()), fmt.Sprintf("%s is set before ProgramEnd tests it", name))
+						}
 					}
 				}
 			}
